@@ -8,13 +8,46 @@ use rustyline::Editor;
 
 fn check_bracket_closed(chars: impl Iterator<Item = char>) -> bool {
     let mut count = 0;
-    let mut in_comment = false;
-    for c in chars {
-        match (c, in_comment) {
-            ('(', false) => count += 1,
-            (')', false) => count -= 1,
-            (';', false) => in_comment = true,
-            ('\n', true) => in_comment = false,
+    let mut chars = chars.peekable();
+    while let Some(c) = chars.next() {
+        match c {
+            '(' => count += 1,
+            ')' => count -= 1,
+            // a comment runs to the end of the line
+            ';' => {
+                for n in chars.by_ref() {
+                    if n == '\n' {
+                        break;
+                    }
+                }
+            }
+            // parentheses and semicolons inside a string literal are data
+            '"' => {
+                while let Some(n) = chars.next() {
+                    match n {
+                        '\\' => {
+                            chars.next();
+                        }
+                        '"' => break,
+                        _ => (),
+                    }
+                }
+            }
+            // ... and so are those inside a |quoted identifier|
+            '|' => {
+                for n in chars.by_ref() {
+                    if n == '|' {
+                        break;
+                    }
+                }
+            }
+            // ... and the character of a #\x literal
+            '#' => {
+                if chars.peek() == Some(&'\\') {
+                    chars.next();
+                    chars.next();
+                }
+            }
             _ => (),
         }
     }
